@@ -210,6 +210,7 @@ type Session struct {
 	calls        int
 
 	resizeCh chan os.Signal
+	multiKey bool
 
 	th, il, sg hashState
 }
@@ -1034,6 +1035,20 @@ func (s *Session) deliver(r *request) {
 	}
 	if n < len(s.fifo) {
 		s.count("reach:partial_read")
+	}
+	switch {
+	case r.kind == kRead && r.site == "main":
+		typed := 0
+		for i := 0; i < n; i++ {
+			if s.fifo[i].src == srcTyped {
+				typed++
+			}
+		}
+		s.multiKey = typed > 1
+	case r.kind == kRead && r.site == "arg":
+		if s.multiKey || n < len(s.fifo) {
+			s.count("reach:arg_read_with_typeahead")
+		}
 	}
 	data := make([]byte, n)
 	for i := 0; i < n; i++ {
